@@ -88,6 +88,45 @@ class ErrnoLemma:
     def trusted(self, d):
         return d.name in ERRNO_TRANSPARENT_REPO or "lttng" in d.file or d.name.startswith("lttng_ust_")
 
+    def helper_kind(self, d):
+        """'get': returns errno and does nothing else; 'set': assigns its parameter to errno and does nothing else;
+        'swap': both (returns the old value).  The save/restore macros written as small functions."""
+        k = getattr(self, "_hk", None)
+        if k is None:
+            k = self._hk = {}
+        if d in k:
+            return k[d]
+        k[d] = None
+        if len(d.nodes) > 60 or any(n["k"] == "call" and (n.get("callee") or "") != "__errno_location" for n in d.nodes.values()):
+            return None
+        pd = {p.get("did") for p in d.params}
+        sets = gets = other = 0
+        errno_locals = set()
+        for n in d.nodes.values():
+            if n["k"] == "decl":
+                for v in n["vars"]:
+                    if v.get("init") is not None and d.show(v["init"]) == "errno":
+                        errno_locals.add(v.get("did"))
+        for b, i, e, lhs, rhs, op in d.stores():
+            if d.show(lhs) == "errno" and op == "=" and rhs is not None and d.sn(rhs)["k"] == "ref" and d.sn(rhs).get("did") in pd:
+                sets += 1
+            elif d.sn(lhs)["k"] == "ref" and d.sn(lhs).get("dk") == "local":
+                pass
+            else:
+                other += 1
+        rets = [n for n in d.nodes.values() if n["k"] == "return" and n.get("sub") is not None]
+        for n in rets:
+            x = d.sn(n["sub"])
+            if d.show(n["sub"]) == "errno" or (x["k"] == "ref" and x.get("did") in errno_locals):
+                gets += 1
+            else:
+                other += 1
+        if other:
+            return None
+        kind = "swap" if sets and gets else ("set" if sets == 1 and not rets else ("get" if gets and not sets else None))
+        k[d] = kind
+        return kind
+
     def call_ok(self, fn, nid, depth=0):
         defs, exts = self.prog.callees(fn, nid)
         n = fn.nodes[nid]
@@ -130,6 +169,10 @@ class ErrnoLemma:
                     for v in n["vars"]:
                         if v.get("init") is not None and fn.show(v["init"]) == "errno":
                             return (v["name"], dirty, bad)
+                        if v.get("init") is not None and fn.sn(v["init"])["k"] == "call":
+                            ds, _ = me.prog.callees(fn, fn.strip(v["init"]))
+                            if ds and all(me.helper_kind(x) == "get" for x in ds):
+                                return (v["name"], dirty, bad)
                 elif k == "bin" and n["op"] == "=":
                     if fn.show(n["l"]) == "errno":
                         rn = fn.sn(n["r"])
@@ -141,6 +184,15 @@ class ErrnoLemma:
                 elif k == "call":
                     if n.get("noreturn"):
                         return None
+                    ds, _ = me.prog.callees(fn, nid)
+                    hk = {me.helper_kind(x) for x in ds} if ds else set()
+                    if hk and hk <= {"get"}:
+                        return None
+                    if hk and hk <= {"set", "swap"} and n["args"]:
+                        an = fn.sn(n["args"][0])
+                        if an["k"] == "ref" and an["name"] == saved:
+                            return (saved, False, bad)
+                        return (saved, dirty, True)
                     if not me.call_ok(fn, nid, depth):
                         return (saved, True, bad or saved is None)
                 return None
